@@ -193,13 +193,34 @@ func (c *salsa20BlockCrypt) Decrypt(dst, src []byte) {
 	}
 }
 
+// lockedBlock serialises the calls into a cipher.Block that is not safe for
+// concurrent use.
+type lockedBlock struct {
+	cipher.Block
+	mu sync.Mutex
+}
+
+func (b *lockedBlock) Encrypt(dst, src []byte) {
+	b.mu.Lock()
+	b.Block.Encrypt(dst, src)
+	b.mu.Unlock()
+}
+
+func (b *lockedBlock) Decrypt(dst, src []byte) {
+	b.mu.Lock()
+	b.Block.Decrypt(dst, src)
+	b.mu.Unlock()
+}
+
 // NewSM4BlockCrypt https://github.com/tjfoc/gmsm/tree/master/sm4
 func NewSM4BlockCrypt(key []byte) (BlockCrypt, error) {
 	block, err := sm4.NewCipher(key)
 	if err != nil {
 		return nil, err
 	}
-	return newBlockCrypt(block), nil
+	// the gmsm cipher keeps scratch buffers inside the cipher object, while
+	// blockCrypt encrypts and decrypts under two independent locks
+	return newBlockCrypt(&lockedBlock{Block: block}), nil
 }
 
 // NewTwofishBlockCrypt https://en.wikipedia.org/wiki/Twofish
